@@ -173,6 +173,11 @@ impl Profile {
                 p.extend = 14;
                 p.query = 2;
                 p.shrink = 3;
+                // "through ... clone and serde round trips": the copy takes over and goes on issuing
+                p.round_trip = 6;
+                p.rt_shadow = 6;
+                p.clone_from = 3;
+                p.clone_to = 3;
             }
             "C03" => {
                 p.query = 20;
